@@ -319,6 +319,9 @@ func main() {
 			if rule.Chunks == 0 {
 				rule.Chunks = r.Chunks
 			}
+			if rule.Bools == "" {
+				rule.Bools = r.Bools
+			}
 			if rule.Threads == 0 {
 				rule.Threads = r.Threads
 			}
@@ -332,6 +335,10 @@ func main() {
 				rule.DelayAfterMs = r.DelayAfterMs
 			}
 		}
+	}
+	if rule.Bools != "" {
+		b := rule.Bools == "true"
+		spec.ForceBool = &b
 	}
 	drng := pgen.NewHashRng("delay", fmt.Sprint(spec.Seed), job, fmt.Sprint(attempt))
 	sleepMs := func(ms int) {
